@@ -106,6 +106,7 @@ package node
 //@   ensures[K2_data]  dsKept(cr) && crOK(cr)
 //@   ensures[K1_desc]  descOnly(result, srcsel) && operandOK(result, srcsel, len(*cr.DS)) && bck(result, srcsel) != bytecode.AddrImm
 //@   ensures[K1_expr]  isExpr(self) ==> bck(result, srcsel) != bytecode.AddrInv
+//@   ensures[K1_inv]   bck(result, srcsel) == bytecode.AddrInv ==> !isExpr(self) && (fl.Data().Discard || fl.Data().Returning || fl.Data().InFunc)
 //@   ensures[K1_namer] (dyntype(self) == typeid[Name]() ==> bck(result, srcsel) == bytecode.AddrGbl) && (dyntype(self) == typeid[Local]() ==> bck(result, srcsel) == bytecode.AddrLcl)
 //@       && (dyntype(self) == typeid[Closure]() ==> bck(result, srcsel) == bytecode.AddrCls)
 //@   ensures[K1_tmp]   bck(result, srcsel) == bytecode.AddrTmp ==> !fl.Data().ForbidTemp && (fl.Data().OpDepth > 0 || fl.Data().AcceptTemp || fl.Data().Discard)
@@ -173,7 +174,7 @@ package node
 //@   assumes[unfold] exprOK(u.Target) && (u.Op == "-" || u.Op == "#" || u.Op == "!" || u.Op == "~")
 //@   assumes[fold]   wfAST(BinOp{Op: "*", Left: Int(-1), Right: u.Target})   // negation is compiled as (-1) * target: a well-formed product of two expressions
 //@ func (Block).byteCode [C05,C12] implements ByteCoder.byteCode
-//@   assumes[unfold] forall k :: 0 <= k && k < len(b.Body) ==> wfAST(b.Body[k])
+//@   assumes[unfold] len(b.Body) >= 1 && (forall k :: 0 <= k && k < len(b.Body) ==> wfAST(b.Body[k]))
 //@   requires[sel01] srcsel <= 1
 //@   loop 0 invariant[stmts] -1 <= rangeindex && rangeindex < len(b.Body) && emitInv(cr)
 //@   loop 0 invariant[last] (rangeindex == len(b.Body) - 1 || len(b.Body) == 0) ==> (descOnly(instr, srcsel) && operandOK(instr, srcsel, len(*cr.DS)) && bck(instr, srcsel) != bytecode.AddrImm
@@ -214,7 +215,7 @@ package node
 //@   modifies *cr.CS, allelems(*cr.CS), *cr.DS, allelems(*cr.DS), mapof(*cr.Dbg)
 //@   ensures[K2_code] csKept(cr) && csNewWF(cr)
 //@   ensures[K2_data] dsKept(cr) && crOK(cr)
-//@   ensures[K1_desc] descOnly(result, srcsel) && (bck(result, srcsel) == bytecode.AddrInv || bck(result, srcsel) == bytecode.AddrStck)
+//@   ensures[K1_desc] descOnly(result, srcsel) && (bck(result, srcsel) == bytecode.AddrStck || (bck(result, srcsel) == bytecode.AddrInv && fl.Data().Returning))
 //
 // Entry points: a statement compiled for its value leaves exactly one PUSH when its result is not
 // already on the stack; compiled for effect, one POP when it is.
